@@ -25,6 +25,12 @@ CHECKS["C19"] = dict(
     ref="DESIGN.md section 4 / C19",
 )
 
+CHECKS["C18"] = dict(
+    technique="static analysis: memo discovery by pattern, transitive field-read sets, in-place-helper mutation summaries, write=>invalidate forward dataflow on the writer's CFG, def-use memo-key completeness",
+    text="For every dict memo of MappingSchema (discovered from the source) the fields its fill function reads are computed transitively; every method that writes such a field (directly or through an in-place helper such as nested_set/new_trie) must fully invalidate the memo on every CFG path to the return, keyed eviction being rejected while the fill resolves partial names; every parameter read by a memoised computation must be in the lookup key; None is never served as a hit. This is the coherence discipline on which 'answers as a fresh schema would' rests; trie arithmetic is not evaluated.",
+    ref="DESIGN.md section 4 / C18",
+)
+
 NOT_APPLICABLE = {
     "C02": "oracle is SQLite/DuckDB evaluation semantics (NULL ordering, division, || precedence); not present in the source, no structural clause implies row equality",
     "C03": "result-multiset equality of optimized vs original query over all databases; guards are semantic conditions, only checkable as frozen fragments (false-alarm prone)",
